@@ -191,10 +191,12 @@ def c04():
         J("c02_grow_al_1", Q, 150, what="growth of a column whose element alignment is 32 moves every live value bit for bit (a value lost or duplicated by growth is never / twice dropped)", bounds=b, assumes=a),
         j("c04_clone_3", Q, 200, "clone clones each live component once; worlds own disjoint values"),
         j("c04_clone_2", T, 100, "clone N=2"),
+        Job(harness="c04::nd::c04_clone_no_drop_glue", tier=Q, cost=100, what="a component type WITHOUT drop glue whose Clone is not a bit copy: cloning a world calls Clone::clone exactly once per live value and the clone holds the cloned values (public API, two archetypes, both column orders)", bounds="populations <= 2 per archetype", assumes=()),
         j("c04_clone_from_3", Q, 300, "clone_from onto an arbitrary non-fresh target of the same capacity: the target's old values dropped exactly once, each source value cloned exactly once, nothing of the source dropped"),
         j("c04_clone_from_2", T, 150, "clone_from N=2"),
         j("c04_iter_destroy_3", Q, 200, "ecs_iter_destroy! drops exactly the flagged ones once"),
         j("c04_iter_destroy_2", T, 100, "ecs_iter_destroy! N=2"),
+        J("c03_direct_destroy_foo_3", Q, 150, what="destroy with an arbitrary direct handle, debug assertions off: one whose index lies in len..capacity (current version) must be refused — a destroy that reads a dead cell hands out a value a second time", bounds=b, assumes=(INV_ASSUME,), debug_assertions=False),
         J("c04_refused_clone_2", Q, 60, what="a clone refused because a column is mutably borrowed refuses BEFORE cloning anything (no leaked clones)", bounds=b, assumes=a, expect_fail=(("placeholder message", "panic_already"),)),
         j("c04_history", Q, 60, "public-API history without hooks (cross-check of the step argument)"),
         j("c04_mixed_drop", Q, 100, "archetypes mixing a column with drop glue and plain-data columns (both orders), 0..2 entities each: every live token dropped exactly once with the world (public API)"),
@@ -236,6 +238,9 @@ def c06():
         j("c06_arch_internal_zf_3", Q, 200, "same on the archetype whose first column is zero-sized"),
         j("c06_arch_internal_other_2", T, 150, "same, second archetype of the world, 2 columns"),
         j("c06_slices_tri_3", Q, 100, "get_slice / borrow_slice / get_all_slices_mut lengths and pairing"),
+        # WHICH archetypes an iteration covers when the closure carries cfg-decorated parameters (real programs through the real cfg chain)
+        J("c16_query_cfg_params", Q, 100, what="ecs_iter! / ecs_iter_borrow! with cfg-disabled parameters of every kind (component, Entity<A>, EntityDirect<A>, dynamic and wildcard direct handles): every entity of every archetype the erased query matches is visited", bounds="one world, populations <= 2 per archetype", assumes=()),
+        J("c16_query_cfg_mixed_predicates", Q, 150, what="iteration with several distinct cfg predicates of different truth values in one query, both orders", bounds="one world, populations <= 2 per archetype", assumes=()),
         j("c06_slices_tri_4", T, 150, "slice accessors N=4"),
     ]
 
@@ -282,6 +287,7 @@ def c08():
         j("c08_monotone_destroy_foo_4", T, 150, "same, N=4"),
         j("c08_monotone_destroy_tri_2", T, 100, "same, 3 columns"),
         j("c08_cross_archetype_2_2", Q, 100, "handles of two archetypes differ"),
+        J("c03_forged_destroy_any_foo_3", Q, 150, what="destroy with a forged handle naming a FREE position with that position's current generation must be refused (debug assertions off): releasing a free position twice makes the free list hand the same position out repeatedly", bounds=b, assumes=(INV_ASSUME,), debug_assertions=False),
         J("c12_symcap_destroy_foo_3", Q, 150, what="a destroy keeps every position's generation and the capacity whatever the capacity is (an archetype that shrank or reset on draining would issue old handles again)", bounds="capacity FIELD symbolic in N..=2^24 over a real allocation of N cells (live positions, free-list links and probes below N); growth excluded (E2 kernels growth/admission decide its arithmetic at full width)", assumes=a + (NOOVF, SYMCAP_ASSUME), allowed=SYMCAP_ALLOWED),
         J("hist_c2_l3", Q, 120, what="bounded public-API history: every handle returned by create/create_within_capacity differs from every handle issued earlier in the history", bounds="capacity 2, 3 operations", assumes=HIST_ASSUME),
         J("c13_clone_create_on_clone_foo_3", Q, 250, what="clone keeps every generation (free positions included) so a clone never re-issues a handle the original issued before the snapshot", bounds=b, assumes=a + (NOOVF, ISSUED)),
@@ -421,6 +427,7 @@ def c13():
         j("c13_clone_from_tri_2", T, 400, "clone_from, 3 columns"),
         j("c13_clone_two_archetypes_2_3", Q, 150, "two populated archetypes: each archetype of the clone equals the same archetype of the original; with_capacity maps capacities per archetype"),
         J("c17_clone_events_2", Q, 150, what="feature events: from an arbitrary state with an arbitrary history of pending events (pending logs that are NOT the list of live rows) the clone reports exactly the same pending created/destroyed events (light harness: its counterexamples replay)", bounds=b, assumes=a, features=("events",)),
+        J("c17_clone_events_api", Q, 100, what="feature events: the clone's pending events on a concrete short public-API history (with / without a clear in between)", bounds=b, assumes=(), features=("events",)),
         J("c17_clear_arch_clone_2", Q, 250, what="feature events: the clone carries the same pending created/destroyed events; clearing one side does not clear the other",
           bounds=b, assumes=a, features=("events",)),
     ]
@@ -525,11 +532,14 @@ def c17():
         j("c17_delta_destroy_any_2", T, 200, "Archetype::destroy(EntityAny)"),
         j("c17_delta_destroy_direct_2", Q, 200, "destroy(EntityDirect)"),
         j("c17_delta_destroy_directany_2", T, 200, "destroy(EntityDirectAny)"),
+        J("c17_delta_destroy_direct_2", Q, 200, what="events together with wrapping_version (code that is compiled differently under the other feature must still log): destroy appends exactly the destroyed handle", bounds=b, assumes=a, features=("events", "wrapping_version")),
+        J("c17_iter_destroy_2", T, 200, what="events + wrapping_version: ecs_iter_destroy! logs each destruction once", bounds=b, assumes=a, features=("events", "wrapping_version")),
         j("c17_delta_reads_2", T, 100, "queries and reads never touch the logs"),
         j("c17_iter_destroy_2", Q, 200, "ecs_iter_destroy! logs each destruction once, in order"),
         j("c17_clear_arch_clone_2", Q, 250, "Archetype::clear_events empties both logs, nothing else changes; clone carries the pending events"),
         j("c17_clear_world_clone_1", T, 250, "World::clear_events"),
         j("c17_clone_events_2", Q, 150, "the clone's pending events alone: equal to the original's for every history of pending events"),
+        j("c17_clone_events_api", Q, 100, "the clone's pending events on a concrete short public-API history (with / without a clear in between): cheap enough to stay decidable whatever containers a changed clone builds its logs with"),
         j("c17_clear_destroy_only_arch_2", Q, 200, "a window with destructions but no creations is cleared too (archetype level)"),
         j("c17_clear_destroy_only_world_2", T, 200, "same at world level"),
         j("c17_world_iter_created", Q, 150, "World::iter_created = concatenation over archetypes, exact size_hint at every position"),
